@@ -9,7 +9,7 @@ value is an exact linear term and each assertion is a solver query."""
 from engine.ctx import exc_label
 
 FUNCTIONS = ['bycycle.cyclepoints.phase.extrema_interpolated_phase', 'bycycle.cyclepoints.phase._merge_phases']
-BOUNDS = {'quick': 'signal length N <= 9, 2..4 alternating extrema, midpoints supplied or None',
+BOUNDS = {'quick': 'signal length N <= 9, 2..4 alternating extrema, midpoints supplied or None, optionally a leading / trailing midpoint outside the extrema (N <= 8, <= 3 extrema)',
           'thorough': 'signal length N <= 12, 2..5 alternating extrema, midpoints supplied or None'}
 OUTSIDE = 'longer arrays; IEEE rounding inside np.interp (exact reals are used)'
 STUBS = []
@@ -26,7 +26,11 @@ def configs(tier):
                 continue
             for first in ('peak', 'trough'):
                 for mid in (True, False):
-                    out.append({'n': n, 'k': k, 'first': first, 'mid': mid})
+                    out.append({'n': n, 'k': k, 'first': first, 'mid': mid, 'lead': False, 'trail': False})
+                # the supplied set may also start / end with a midpoint (decay before the first trough, ...)
+                if k <= 3 and n <= (8 if tier == 'quick' else 10):
+                    for lead, trail in ((True, False), (False, True), (True, True)):
+                        out.append({'n': n, 'k': k, 'first': first, 'mid': True, 'lead': lead, 'trail': trail})
     return out
 
 
@@ -53,14 +57,28 @@ def run(ctx, cfg):
     peaks = [p for p, kd in zip(pos, kinds) if kd == 'peak']
     troughs = [p for p, kd in zip(pos, kinds) if kd == 'trough']
     rises, decays = None, None
+    lead_pos = trail_pos = None
     if mid:
         rises, decays = [], []
+        if cfg.get('lead'):
+            # a midpoint before the first extremum: a decay precedes a trough, a rise precedes a peak
+            m = ctx.integer('mlead')
+            ctx.assume(m >= 0)
+            ctx.assume(m <= pos[0])
+            lead_pos = ctx.toint(m)
+            (decays if kinds[0] == 'trough' else rises).append(lead_pos)
         for j in range(k - 1):
             m = ctx.integer('m%d' % j)
             ctx.assume(m >= pos[j])
             ctx.assume(m <= pos[j + 1])
             mv = ctx.toint(m)
             (rises if kinds[j] == 'trough' else decays).append(mv)
+        if cfg.get('trail'):
+            m = ctx.integer('mtrail')
+            ctx.assume(m >= pos[-1])
+            ctx.assume(m <= n - 1)
+            trail_pos = ctx.toint(m)
+            (rises if kinds[-1] == 'trough' else decays).append(trail_pos)
     sig = np.zeros(n)
     try:
         pha = ph.extrema_interpolated_phase(
@@ -74,7 +92,8 @@ def run(ctx, cfg):
     ctx.obs('pha', pha)
     if not ctx.prove(len(pha) == n, 'one phase value per sample'):
         return
-    lo, hi = pos[0], pos[-1]
+    lo = pos[0] if lead_pos is None else lead_pos
+    hi = pos[-1] if trail_pos is None else trail_pos
     obl = []
     for i in range(n):
         if i < lo or i > hi:
